@@ -122,3 +122,8 @@ for _pid in ("C01", "C10", "C14"):
     PROPS[_pid]["families"] = PROPS[_pid]["families"] + ["twowf"]
     PROPS[_pid]["explanation"] += "; two workflows of different names on ONE in-memory streamer / record store / role scheduler / timeout store: every run of both completes and every hook runs to success"
     PROPS[_pid]["assumptions"] = PROPS[_pid]["assumptions"] + ["twowf: real goroutines on the in-memory adapters; 'completed' is awaited with a bound (4 s, repeated once with 15 s; a rejected case is re-run by check)"]
+
+# C09 composed with the bundled store: Trigger on the real memrecordstore while older runs are written again
+PROPS["C09"]["families"] = PROPS["C09"]["families"] + ["trgmem"]
+PROPS["C09"]["explanation"] += "; Workflow.Trigger on the real memrecordstore interleaved with run-state writes to earlier runs"
+PROPS["C09"]["assumptions"] = PROPS["C09"]["assumptions"] + ADAPTER_ASSUME
